@@ -46,6 +46,13 @@ def enumerate_cases(c, init, tier, part="all", workers=None, name=None):
     return r.raw_json_lines()
 
 
+def liveness(c, spec, tier="q", name=None):
+    """Design-level "never loops": TLC checks under weak fairness that the decoder step machine reaches its end on every input of the space."""
+    cfg = BASE % (tier, "all") + "SPECIFICATION %s\nPROPERTY Terminates\nCHECK_DEADLOCK FALSE\n" % spec
+    c.tlc("MC_Esl", "live.cfg", files={"live.cfg": cfg}, name=name or ("liveness-" + spec), timeout=3000, heap="12g")
+    c.cov["liveness"] = c.cov.get("liveness", []) + ["MC_Esl!%s |= Terminates" % spec]
+
+
 class Stats:
     def __init__(self):
         self.n = 0
